@@ -95,7 +95,7 @@ def visit_pairing(repo, rep, rule):
                     (isinstance(c.func, ast.Name) and c.func.id == pfn) or
                     any(isinstance(a, ast.Name) and a.id == pfn for a in c.args) or
                     any(isinstance(k.value, ast.Name) and k.value.id == pfn for k in c.keywords)):
-                runner_lines.append((st, state))
+                runner_lines.append((c, state))
         return transfer(st, state)
     fl = Flow(transfer_outer, raises)
     out = fl.run(w.node, 0)
